@@ -1127,8 +1127,13 @@ impl DB {
             (wal_record, is_eof) = wal_reader.read_record()?;
         }
 
+        // A WAL that ends in a partially written record cannot be appended to. The reader stops at
+        // the torn record but a writer would continue after it, so everything appended later would
+        // be unreadable.
+        let is_wal_complete = wal_reader.is_fully_consumed()?;
         let mut was_memtable_reused = false;
-        if self.options.reuse_log_files() && is_last_wal && num_compactions == 0 {
+        if self.options.reuse_log_files() && is_last_wal && num_compactions == 0 && is_wal_complete
+        {
             log::info!("Reusing WAL file: {wal_path:?}.", wal_path = &wal_path);
             drop(wal_reader);
             if let Ok(wal_writer) =
